@@ -28,6 +28,10 @@ CLAIMS = {
     text='partial: Lean 4 theorems over the same session model (readExact_flatten: read_exact returns exactly the next n bytes of the stream however they are split; no_residue for every segmentation); the executable model predicts the session under every segmentation exactly, including the two unsupported classes; per run: every single split point of several requests, random multi-splits, chunks beyond the buffer, compared with the canonical one-read-per-request segmentation on the implementation; the classes head_split and coalesced are recorded known findings',
     note=TB + 'cannot be exhibited: real TCP segmentation and timers; known findings KF-C06-head-split, KF-C06-coalesced (redesign of Request::read needed); the theorem "responses are a function of the byte stream on the supported class" is decided per run, not yet proved in Lean',
     technique='Lean 4 proof (stream lemmas, loop invariant) + model/implementation correspondence + metamorphic oracle over enumerated split points'),
+ 'C08': dict(
+    text='Lean 4 theorems: urlencoded_total (for every input, target type of the serde data model and fuel the URL-encoded reader answers a value or an error: no panic site, no unchecked operation outside its side condition), cookie_take_in_bounds (take_n_unchecked is called with a position inside the input), cookie_value_utf8, multipart_slice_inside (every slice read_until hands out is a prefix of the body), percent_decode_len; differential run of every network-facing decoder on random, grammar-generated and mutated bytes over a family of 30+ target types with catch_unwind / abort / hang detection, UTF-8 re-validation and pointer-range checks, against the models of the URL-encoded, cookie and multipart readers',
+    note=TB + 'totality of the cookie, multipart and Set-Cookie readers is by model/implementation correspondence (their models have no panicking outcome) plus the listed side-condition lemmas, not by a separate totality theorem; Rust memory model and aliasing are outside',
+    technique='Lean 4 proof (totality of the URL-encoded reader by induction on fuel/type; side-condition lemmas) + model/implementation correspondence with crash detection'),
  'C09': dict(
     text='Lean 4 theorem roundtrip_struct (reader after writer = identity and consumes all text, for every struct type and every well-typed unambiguous value, with the text primitives proved rather than assumed) and the percent-encoding round trip; tied to the code by a differential run of the real to_string / from_bytes / QueryParams::iter against the writer and reader models, and of decoded texts against an independent RFC 3986 pair reader',
     note=TB + 'modelled not verified: serde derive visitor protocol, str::parse, from_utf8, percent_encoding (hand models; PrimsOK proved for them); floats outside the catalogue; known finding KF-C09-empty-ambiguity',
